@@ -14,6 +14,7 @@ import shutil
 import subprocess
 import sys
 import tempfile
+import threading
 import time
 
 VERIF = os.path.dirname(os.path.dirname(os.path.dirname(os.path.abspath(__file__))))
@@ -131,8 +132,9 @@ class Ctx:
         self.t0 = time.time()
         self.pool = cf.ThreadPoolExecutor(max_workers=jobs)
         self.notes = []
-        import threading
         self.lock = threading.RLock()
+        self.keylocks = {}
+        self.nobj = 0
 
     @property
     def quick(self):
@@ -168,15 +170,28 @@ class Ctx:
     def gotocc_obj(self, rel, defs=(), shim=True, extra_inc=()):
         """compile one library source of the working tree to a goto object (cached per run)."""
         key = (rel, tuple(defs), shim, tuple(extra_inc))
-        if key in self.libcache:
-            return self.libcache[key]
+        # one compile per key: concurrent obligations wait on a per-key lock (two threads writing the same object file
+        # produced truncated goto binaries -> missing function bodies -> spurious nondeterministic failures)
+        with self.lock:
+            if key in self.libcache:
+                return self.libcache[key]
+            klock = self.keylocks.setdefault(key, threading.Lock())
+        with klock:
+            with self.lock:
+                if key in self.libcache:
+                    return self.libcache[key]
+            return self._gotocc_obj(key, rel, defs, shim, extra_inc)
+
+    def _gotocc_obj(self, key, rel, defs, shim, extra_inc):
         if rel.endswith(".s"):
             path, incdir = s2c_sources(self)[rel], os.path.dirname(self.src_path(rel))
         else:
             path, incdir = self.staged_source(rel)
         if shim:
             validate_shim(self)
-        tag = "%04d" % len(self.libcache)
+        with self.lock:
+            self.nobj += 1
+            tag = "%04d" % self.nobj
         out = os.path.join(self.scratch.sub("lib"), tag + "_" + rel.replace("/", "_") + ".gb")
         cmd = ["goto-cc", "-c", "-DNDEBUG", "-D__CPROVER__"] + CPU_HOOK
         if shim:
@@ -187,7 +202,8 @@ class Ctx:
         rc, o, e, w, to = run(cmd, timeout=120)
         if rc != 0:
             raise BuildError("goto-cc failed for %s:\n%s" % (rel, (o + e)[-2000:]))
-        self.libcache[key] = out
+        with self.lock:
+            self.libcache[key] = out
         return out
 
 
@@ -800,6 +816,8 @@ def finish(ctx, results, meta, extra_results=()):
     os.makedirs(EVID, exist_ok=True)
     with open(os.path.join(EVID, ctx.prop + ".json"), "w") as f:
         json.dump(ev, f, indent=1)
+    slow = sorted(results, key=lambda r: -r.wall)[:5]
+    log("  slowest: " + ", ".join("%s %.0fs" % (r.ob.name, r.wall) for r in slow))
     log("SUMMARY property=%s tier=%s obligations=%d discharged=%d known=%d violations=%d inconclusive=%d wall=%.1fs solver=%.1fs" %
         (ctx.prop, ctx.tier, total, n_pass, n_known, n_fail, n_inc, wall, solver))
     if n_fail:
